@@ -160,7 +160,10 @@ impl Ctx {
 /// Scratch directory of this run (shared with its worker processes, removed by the top-level process).
 pub fn run_dir() -> PathBuf {
     let tag = std::env::var("VCHECK_RUN_TAG").unwrap_or_else(|_| std::process::id().to_string());
-    std::env::temp_dir().join(format!("vcheck-run-{}", tag))
+    // a memory file system if there is one (the checks create and remove very many small files), else the temporary directory
+    let shm = std::path::Path::new("/dev/shm");
+    let base = if std::env::var("VCHECK_SCRATCH_ON_DISK").is_err() && shm.is_dir() && !shm.metadata().map(|m| m.permissions().readonly()).unwrap_or(true) { shm.to_path_buf() } else { std::env::temp_dir() };
+    base.join(format!("vcheck-run-{}", tag))
 }
 
 /// Called by the top-level process before anything else; returns true if this process owns the run dir.
@@ -177,6 +180,10 @@ pub fn claim_run_dir() -> bool {
 pub fn release_run_dir() {
     let _ = std::env::set_current_dir("/");
     let _ = std::fs::remove_dir_all(run_dir());
+    // scratch of the same name on the memory file system (C12 jails)
+    if let Some(n) = run_dir().file_name() {
+        let _ = std::fs::remove_dir_all(std::path::Path::new("/dev/shm").join(n));
+    }
 }
 
 pub fn machinery(msg: &str) -> ! {
